@@ -78,7 +78,8 @@ def _norm(comp):
     for d in comp:
         nd = {}
         for k, lst in d.items():
-            nd[int(k)] = [(_rk(t[0]), tuple(sorted(int(x) for x in t[1])), tuple(sorted(int(x) for x in t[2]))) for t in lst]
+            # a per-conditional collection of world triples: compared as a multiset
+            nd[int(k)] = sorted(((_rk(t[0]), tuple(sorted(int(x) for x in t[1])), tuple(sorted(int(x) for x in t[2]))) for t in lst), key=repr)
         out.append(nd)
     return out
 
@@ -180,7 +181,7 @@ cs = []
 for k, c, a in st["conds"]:
     cd = Conditional(form(c), form(a), "c%d" % k); cd.index = k; cs.append(cd)
 def norm(comp):
-    return [{str(k): [[int(t[0]), sorted(t[1]), sorted(t[2])] for t in lst] for k, lst in d.items()} for d in comp]
+    return [{str(k): sorted([[int(t[0]), sorted(t[1]), sorted(t[2])] for t in lst], key=repr) for k, lst in d.items()} for d in comp]
 if st["script"] is None:
     result = [norm(cr.compile_alt(ocf, cs)), norm(cr.compile_alt_fast(ocf, cs)), norm(CRevisionModel(ocf, cs).to_compilation())]
 else:
